@@ -567,6 +567,36 @@ func runC17(c *eng.Ctx) {
 		}
 	})
 
+	// ---- the pooled lexer / parser belong to one Parse call until it is done with them ------------------------------------------------
+	c.Rule("TYPESTATE", "sql.Parse{pooled lexer and parser released after the parse}", func() {
+		f := c.Fn("sql.Parse")
+		uses := p.Sites(f, func(p *eng.Prog, in ssa.Instruction) bool {
+			cl, ok := in.(*ssa.Call)
+			if !ok {
+				return false
+			}
+			for _, k := range p.CalleeKeys(cl) {
+				if strings.HasSuffix(k, ".Statement") || strings.HasSuffix(k, "ParseTreeWalker.Walk") || strings.HasSuffix(k, "NewCommonTokenStream") || k == "var:sql.getSQLParserFunc" || k == "sql.getSQLParser" {
+					return true
+				}
+			}
+			return false
+		})
+		c.Check(len(uses) >= 3, "parse-steps-found", nil, f, "Parse builds the token stream, creates the parser, runs parser.Statement() and walks the tree", fmt.Sprintf("%d steps found", len(uses)))
+		nPut := len(p.Sites(f, eng.DeferTo("sql.putSQLLexer", "sql.putSQLParser")))
+		for i, put := range p.Sites(f, eng.CallTo("sql.putSQLLexer", "sql.putSQLParser")) {
+			nPut++
+			w, again := eng.Reaches(f, put.Instr, uses, nil)
+			det := ""
+			if again {
+				det = "the object goes back to the pool at " + p.InstrPos(put.Instr) + " but " + p.InstrPos(w) + " still runs afterwards (the token stream pulls tokens from the lexer lazily while the parser runs)"
+			}
+			c.Check(!again, fmt.Sprintf("released-after-last-use[%d]", i), put.Instr, f,
+				"a lexer / parser taken from the pool is put back only after the parse that uses it has finished (another goroutine's Parse would otherwise re-target it mid-parse and this statement would be built from the other one's text)", det)
+		}
+		c.Check(nPut >= 1, "pool-returns-found", nil, f, "Parse returns its pooled objects", "")
+	})
+
 	// ---- determinism of the parser ---------------------------------------------------------------------------------------------
 	c.Rule("PROV", "sql{deterministic parsing}", func() {
 		sp := p.Package("sql")
